@@ -191,15 +191,19 @@ CHECKS = {
     "C06": dict(
         category="model_checking",
         technique="TLA+ Mex.tla (Arities, guards, unwrap modes, call parameters with defaults, return wrapping) "
-                  "evaluated by TLC on each observed module and compared with scanned guards and routine bodies",
+                  "evaluated by TLC on each observed module and compared with scanned guards and routine bodies; (executed) "
+                  "session plans of spec/PyCall.tla run on generated gateways compiled with the real matlab.h against the MEX "
+                  "mock and a rendered instrumented library, MATLAB side emulated from the scanned .m files",
         text="For every constructor, method, static method and free function of TLC-derived modules (signature "
              "universe: <= 2-3 arguments x default masks x passing modes x return shapes, templated or not) TLC "
              "derives the k+1 overloads and for each the MATLAB guard (count, isa type, size tests), the expected "
              "checkArguments count, the unwrap statement of every argument (index, mode, type, pointer name), the call "
              "expression with the omitted defaults' text, and the return wrapping; the scanned .m / .cpp must agree.",
-        note="The type-name formatting tables of the generator are part of the specification (transcribed). Executed "
-             "gateways are part of C11. Two deviations pinned by golden files are known findings.",
-        design="6/C06"),
+        note="The type-name formatting tables of the generator are part of the static specification (transcribed) - which is "
+             "why the executed half exists: every callable of 'mexcall' modules is called at every arity n..n-k and the library "
+             "must log the declared entity with the values in order and the declared defaults.  It found two defects that "
+             "were fixed and five recorded findings (golden-pinned or not small).",
+        design="6/C06, 12.7"),
     "C10": dict(
         category="model_checking",
         technique="TLA+ Mex.tla (Toolbox files, classdef structure, Preamble) evaluated by TLC and compared with the "
